@@ -63,3 +63,58 @@ def schema_consistent(eng):
     return True
   except AssertionError:
     return False
+
+
+# ---------------------------------------------------------------------------------------------
+# Fresh engines from what an engine reports (C05 Rebuild, C07 Reopen)
+# ---------------------------------------------------------------------------------------------
+import marshal   # noqa: E402
+
+
+def _db_blob(table_id, row_ids, enc_columns):
+  """What Node hands to load_table: a marshalled dict with byte keys; non-primitive values as BLOBs."""
+  def dbval(v):
+    if v is None or isinstance(v, (bool, int, float, str)):
+      return v
+    return marshal.dumps(v)
+  d = {b"id": list(row_ids)}
+  for c, vals in enc_columns.items():
+    d[c.encode("utf8")] = [dbval(v) for v in vals]
+  return marshal.dumps(d)
+
+
+def reopen(eng):
+  """
+  C07: load a fresh engine from the data `eng` itself reports - metadata tables first, then every
+  table including stored formula values, encoded as in its replies, marshalled, decoded with main.py's
+  table_data_from_db - and apply Calculate.  Returns (new engine, Calculate reply repr).
+  """
+  import main as main_mod   # pylint: disable=import-outside-toplevel
+  fetched = {}
+  for table_id in list(eng.tables):
+    td = actions.encode_objects(eng.fetch_table(table_id, formulas=True))
+    fetched[table_id] = _db_blob(table_id, td.row_ids, td.columns)
+  eng2 = engine_mod.Engine()
+  mt = main_mod.table_data_from_db("_grist_Tables", fetched["_grist_Tables"])
+  mc = main_mod.table_data_from_db("_grist_Tables_column", fetched["_grist_Tables_column"])
+  expected = eng2.load_meta_tables(mt, mc)
+  for table_id in expected:
+    eng2.load_table(main_mod.table_data_from_db(table_id, fetched.get(table_id)))
+  reply = apply(eng2, [['Calculate']])
+  return eng2, reply
+
+
+def rebuild(eng):
+  """
+  C05: a fresh engine that loads the same metadata and DATA columns only (no stored formula results)
+  and calculates everything from scratch.  Returns the new engine.
+  """
+  eng2 = engine_mod.Engine()
+  mt = eng.fetch_table("_grist_Tables", formulas=False)
+  mc = eng.fetch_table("_grist_Tables_column", formulas=False)
+  expected = eng2.load_meta_tables(mt, mc)
+  for table_id in expected:
+    if table_id in eng.tables:
+      eng2.load_table(eng.fetch_table(table_id, formulas=False))
+  apply(eng2, [['Calculate']])
+  return eng2
